@@ -1215,7 +1215,12 @@ orc_compiler_rewrite_vars2 (OrcCompiler *compiler)
       else
         dest = compiler->insns[j].dest_args[1];
 
-      if (compiler->vars[src1].last_use == j) {
+      /* a rule may use dest as scratch while it still reads its second
+       * operand, so dest cannot share a register with src1 when the same
+       * variable is also the second operand */
+      if (compiler->vars[src1].last_use == j &&
+          !(compiler->insns[j].opcode->src_size[1] != 0 &&
+            compiler->insns[j].src_args[1] == src1)) {
         if (compiler->vars[src1].first_use == j) {
           k = orc_compiler_allocate_register (compiler, TRUE);
           compiler->vars[src1].alloc = k;
